@@ -1,7 +1,8 @@
-"""U-PSPAN4 (C13) - fourth sister unit of U-PSPAN: parse_function_body, parse_member, parse_parameter, parse_struct_members and
-parse_rest_of_function_signature of src/alpha/parser.rs (and Statement::location of common.rs) VERIFIED under the span contract (contracts/u_pspan.vc for
+"""U-PSPAN4 (C13) - fourth sister unit of U-PSPAN: parse_function_body, parse_member, parse_parameter, parse_struct_members,
+parse_rest_of_function_signature, parse_word_declaration, parse_struct_declaration and parse_constant_declaration of src/alpha/parser.rs (and Statement::location of common.rs) VERIFIED under the span contract (contracts/u_pspan.vc for
 the cursor and the sister functions, contracts/u_pspan4.vc and spec/u_pspan4_spec.rs for these); the nineteen parse functions of the sister units are
 external with the contract text that U-PSPAN / U-PSPAN2 / U-PSPAN3 prove.  Rules PS3 (`?` into Poison written out) and PS4 (map_err(|e| e.into()) written out)."""
+import os
 from units import u_pspan
 from vlib import rules
 from units.u_plit import C, E
@@ -20,9 +21,15 @@ def types(u):
     u.raw('//@prelude FromSpecImpl<Error> for Poison restates the From impl verified just above\n'
           'impl vstd::std_specs::convert::FromSpecImpl<Error> for Poison {\n\topen spec fn obeys_from_spec() -> bool { true }\n'
           '\topen spec fn from_spec(v: Error) -> Self { Poison::Error(v) }\n}\n//@end')
+    # the trusted model of the third-party EnumSet (part (1) of prelude/export_enumset.rs: an opaque set of flags; the span contracts never look into it)
+    es = open(os.path.join(u.verif, 'prelude/export_enumset.rs')).read()
+    u.raw('//@prelude prelude/export_enumset.rs part (1): EnumSet<T>\n' + es[:es.index('// (2) Opaque stand-ins')] + '\n//@end')
+    u.emit(C, 'enum DeclarationFlag')
+    u.emit(C, 'enum Declaration', derive_drop=['Clone'])
     u.include('spec/u_pspan4_spec.rs', kind='spec')
     u.emit(C, 'impl Statement', only=['location'])
 
 
 def build(u):
-    u_pspan.build_with(u, (), extra=('parse_function_body', 'parse_member', 'parse_parameter', 'parse_struct_members', 'parse_rest_of_function_signature'), extra_types=types, extra_rules=[rules.only_for(['fn parse_function_body'], PR.ps3_question_into_poison), PR.ps4_map_err_into])
+    u_pspan.build_with(u, (), extra=('parse_function_body', 'parse_member', 'parse_parameter', 'parse_struct_members', 'parse_rest_of_function_signature',
+                              'parse_word_declaration', 'parse_constant_declaration', 'parse_struct_declaration'), extra_types=types, extra_rules=[rules.only_for(['fn parse_function_body'], PR.ps3_question_into_poison), PR.ps4_map_err_into])
